@@ -245,13 +245,21 @@ func forNud(p *parser, t *token) *token {
 		return t
 	}
 
-	t.Append(first)
+	t.Append(asStatement(first))
 	p.Advance(";")
 	t.Append(p.Expression(0, "{"))
 	p.Advance(";")
-	t.Append(p.Expression(0, "{"))
+	t.Append(asStatement(p.Expression(0, "{")))
 	t.Append(p.Block("block", "{", "}"))
 	return t
+}
+
+// asStatement marks a call used as a statement: its results are discarded.
+func asStatement(tok *token) *token {
+	if tok != nil && tok.Symbol == "call" {
+		tok.Tokens[2].Text = "0"
+	}
+	return tok
 }
 
 // func variadicNud(p *parser, t *token) *token {
@@ -613,7 +621,7 @@ func switchNud(p *parser, t *token) *token {
 	for {
 		if p.Token.Symbol == "case" {
 			c := p.Advance("case")
-			c.Append(p.Statement())
+			c.Append(p.Expression(0))
 			p.Advance(":")
 			c.Append(getCase(p))
 			cases.Append(c)
